@@ -5,66 +5,8 @@ R18.2 every length of the proof type family is pinned by an error-returning guar
 R18.3 every entry point validates (and propagates the error) before any other use of the proof
 R18.4 no input-sized allocation in the decoders
 """
-from . import flow, ob, cha as cha_mod
+from . import flow, ob, pins, cha as cha_mod
 from .facts import parse_path, strip_generics, split_top, ty_adt
-
-# ----------------------------------------------------------------------------- type walk (R18.2)
-LEAF_PREFIXES = ('F', 'u8', 'u16', 'u32', 'u64', 'usize', 'bool', '<')
-
-
-def outer(t):
-    t = t.strip()
-    while t.startswith('&'):
-        t = t[1:].lstrip()
-        if t.startswith('mut '):
-            t = t[4:]
-    i = t.find('<')
-    if i < 0:
-        return t, []
-    name = t[:i]
-    inner = t[i + 1:t.rfind('>')]
-    return name, split_top(inner)
-
-
-def required_pins(F, tyname, path, out, depth=0, seen=()):
-    """Walk a type; emit (path-alternatives, description) for every length-bearing position."""
-    if depth > 8:
-        return
-    t = tyname.strip()
-    if t.startswith('('):
-        parts = split_top(t[1:-1])
-        for i, p in enumerate(parts):
-            required_pins(F, p, '%s.%d' % (path, i), out, depth + 1, seen)
-        return
-    name, args = outer(t)
-    short = name.split('::')[-1]
-    if short == 'Vec' and args:
-        out.append(([path], 'Vec length'))
-        required_pins(F, args[0], path + '[]', out, depth + 1, seen)
-        return
-    if short == 'Option' and args:
-        out.append(([path, path + '[]'], 'Option presence'))
-        required_pins(F, args[0], path, out, depth + 1, seen)
-        return
-    if short == 'MerkleCap':
-        out.append(([path, path + '.0'], 'cap size'))
-        return
-    if short == 'PolynomialCoeffs':
-        out.append(([path, path + '.coeffs'], 'polynomial length'))
-        return
-    if short == 'MerkleProof':
-        out.append(([path, path + '.siblings'], 'Merkle path length'))
-        return
-    if short in ('HashMap', 'BTreeMap'):
-        out.append(([path], 'map size / key set'))
-        return
-    adt = F.adts.get(name)
-    if adt is not None and adt['kind'] == 'struct' and name not in seen:
-        for fname, fty, _ in adt['variants'][0]['f']:
-            required_pins(F, fty, '%s.%s' % (path, fname), out, depth + 1, seen + (name,))
-        return
-    # leaf (field element, hash, primitive, generic param)
-
 
 # ----------------------------------------------------------------------------- helpers
 PANIC_CALLS = {'unwrap', 'expect', 'remove', 'swap_remove', 'insert', 'split_at', 'split_at_mut', 'copy_from_slice',
@@ -163,35 +105,7 @@ def run(F, ck, tier):
     ck.floor('R18.1', 'panic-capable sites examined in validator/decoder closures', nsites, 10)
 
     # ---------------------------------------------------------------- R18.2 pins
-    entries = [
-        # (entry, crate, root param, type, inline names, label)
-        ('plonk::verifier::verify', 'plonky2', 'proof_with_pis', 'plonky2::plonk::proof::ProofWithPublicInputs<F, C, D>',
-         {'validate_proof_with_pis_shape', 'validate_proof_shape', 'validate_fri_proof_shape', 'validate_batch_fri_proof_shape', 'verify_with_challenges', 'verify_fri_proof'}, 'plonk'),
-        ('batch_fri::verifier::verify_batch_fri_proof', 'plonky2', 'proof', 'plonky2::fri::proof::FriProof<F, H, D>',
-         {'validate_batch_fri_proof_shape'}, 'batch_fri'),
-        ('starky::verifier::verify_stark_proof_with_challenges', 'starky', 'proof', 'starky::proof::StarkProof<F, C, D>',
-         {'validate_proof_shape', 'check_lookup_options', 'verify_fri_proof', 'validate_fri_proof_shape', 'validate_batch_fri_proof_shape'}, 'stark'),
-    ]
-    total_req = 0
-    for q, crate, root, ty, names, label in entries:
-        fn = F.one(q, crate=crate)
-        if fn is None:
-            ck.ob('R18.2', 'anchor:' + q, False, 'ANCHOR-MISSING: entry point %s' % q, q)
-            continue
-        fl = flow.Flow(F, fn, inline=C.inline_only(names), depth=5)
-        pins = set()
-        for e in fl.events:
-            if e.kind == 'guard':
-                pins |= e.eq_pins
-        req = []
-        required_pins(F, ty, 'p:' + root, req)
-        total_req += len(req)
-        for alts, what in req:
-            ok = any(a in pins for a in alts)
-            key = 'pin:%s:%s' % (label, alts[0][2:])
-            ck.ob('R18.2', key, ok, ('%s of %s is never compared for EQUALITY with anything by an Err-returning guard on the way from %s: a proof with a wrong %s reaches indexing / zips unchecked' % (what, alts[0][2:], fn.qual, what))
-                  if not ok else '%s pinned' % what, '%s:%d' % (fn.file, fn.line))
-    ck.floor('R18.2', 'length-bearing positions in the proof type family', total_req, 30)
+    pins.check(F, ck, 'R18.2')
 
     # ---------------------------------------------------------------- R18.3 validate before use
     ventries = [
